@@ -17,7 +17,10 @@ meaning of the `failed` flag of on_exit and of set_auto_restart):
            nothing after the request returned.
  SUSPEND   between the return of suspend(P) and the next resume(P) request P runs nothing (no call, no return); an exec of
            P lasts at least flops/speed + the time P was suspended; its remaining work is the same at both ends.
- RESTART   turning on a host that was off re-creates exactly the actors that asked for auto-restart there.
+ RESTART   (observed and counted only: the statement has no clause about auto-restart) turning on a host that was off
+           re-creates the actors that asked for auto-restart there; deviations go to the `anomaly.restart.*` counters.
+           What the statement says about the restarted incarnations (on_exit, kill time, daemon flag) is judged as for
+           every other actor.
 """
 import math
 
@@ -146,29 +149,11 @@ def check(out, report, count):
                 return feats
     # ---------------------------------------------------------------- suspension intervals (log order and clocks)
     susp_flag = {}            # pid -> start event while suspended
-    intervals = {}            # pid -> list of [start ev, end ev or None]
+    intervals = {}            # pid -> list of [start ev, end ev or None]: the actor is certainly suspended
+    maybe = {}                # pid -> list of [start line, end line or None]: the actor may be suspended (superset)
+    resume_inflight = {}      # target pid -> {issuer pid: log line}: resume requests logged but not yet returned
     for e in evs:
-        if e.kind == "R" and len(e.f) > 2 and e.f[2] == "suspend":
-            p = int(e.f[3])
-            if p not in susp_flag and alive_at(p, e.i):
-                susp_flag[p] = e
-                intervals.setdefault(p, []).append([e, None])
-        elif e.kind == "Q" and e.f[2] == "suspendself":
-            p = int(e.f[0])
-            if p not in susp_flag:
-                susp_flag[p] = e
-                intervals.setdefault(p, []).append([e, None])
-        elif e.kind == "Q" and e.f[2] == "resume":
-            p = int(e.f[3])
-            if p in susp_flag:
-                intervals[p][-1][1] = e
-                del susp_flag[p]
-        elif e.kind == "T":
-            p = int(e.f[0])
-            if p in susp_flag:
-                intervals[p][-1][1] = e
-                del susp_flag[p]
-        elif e.kind == "R" and e.f[1] != "-1":
+        if e.kind == "R" and e.f[1] != "-1":
             # Only *returns* of API calls count as progress: an actor suspended (or killed) before its body ever ran still
             # executes its code up to its first simcall when it is first scheduled, which the statement does not exclude.
             p = int(e.f[0])
@@ -177,6 +162,48 @@ def check(out, report, count):
                 report("C11:suspended:ran:%s" % e.f[2],
                        "actor %d was suspended at %g (log line %d) and not resumed, yet it logs %s %r at %g" % (p, s.clk, s.i, e.kind, e.f, e.clk))
                 return feats
+        if e.kind == "Q" and e.f[2] == "suspend":
+            maybe.setdefault(int(e.f[3]), []).append([e.i, None])
+        elif e.kind == "R" and len(e.f) > 2 and e.f[2] == "suspend":
+            p = int(e.f[3])
+            # A resume(p) whose request is still in flight may have been served after this suspend (requests of one
+            # scheduling round overlap in the log): p may be running again, nothing is demanded of it.
+            if p not in susp_flag and alive_at(p, e.i):
+                if resume_inflight.get(p):
+                    count("suspend.ambiguous_resume_in_flight")
+                else:
+                    susp_flag[p] = e
+                    intervals.setdefault(p, []).append([e, None])
+        elif e.kind == "Q" and e.f[2] == "suspendself":
+            p = int(e.f[0])
+            maybe.setdefault(p, []).append([e.i, None])
+            if p not in susp_flag:
+                susp_flag[p] = e
+                intervals.setdefault(p, []).append([e, None])
+        elif e.kind == "Q" and e.f[2] == "resume":
+            p = int(e.f[3])
+            resume_inflight.setdefault(p, {})[int(e.f[0])] = e.i
+            if p in susp_flag:
+                intervals[p][-1][1] = e
+                del susp_flag[p]
+        elif e.kind == "R" and len(e.f) > 2 and e.f[2] == "resume":
+            for p, who in resume_inflight.items():
+                qi = who.pop(int(e.f[0]), None)
+                if qi is not None:
+                    # served: every suspension requested before this resume was requested is over
+                    for m in maybe.get(p, []):
+                        if m[1] is None and m[0] < qi:
+                            m[1] = e.i
+        elif e.kind == "T":
+            p = int(e.f[0])
+            for who in resume_inflight.values():
+                who.pop(p, None)
+            for m in maybe.get(p, []):
+                if m[1] is None:
+                    m[1] = e.i
+            if p in susp_flag:
+                intervals[p][-1][1] = e
+                del susp_flag[p]
 
     def suspended_time(pid, a, b):
         tot = 0.0
@@ -188,8 +215,9 @@ def check(out, report, count):
         return tot
 
     def suspended_between(pid, i0, i1):
-        for s, t in intervals.get(pid, []):
-            if s.i < i1 and (t is None or t.i > i0):
+        """may actor pid have been suspended at some point between log lines i0 and i1?"""
+        for a, b in maybe.get(pid, []):
+            if a < i1 and (b is None or b > i0):
                 return True
         return False
 
@@ -450,21 +478,18 @@ def check(out, report, count):
                 return feats
             count("deaths." + why[0])
     count("deaths.graceful", len([p for p in actors if p in zline]))
-    # ---------------------------------------------------------------- RESTART
-    definite, possible = {}, {}          # host -> list of (line, script)
-    seen_reg = set()
+    # ---------------------------------------------------------------- RESTART (counted, not judged: the statement is silent)
+    definite, possible = {}, {}          # host -> {pid: (line, script)}
     for q, r in pairs:
         if q.f[2] == "autorestart":
             pid = int(q.f[0])
-            if pid in born and pid not in restart_born and pid not in seen_reg:
-                seen_reg.add(pid)
+            if pid in born and pid not in restart_born:
                 # no return logged = the actor was killed in the round of its request, which may or may not have been served
-                (definite if r is not None else possible).setdefault(host_of[pid], []).append((q.i, int(born[pid].f[2])))
+                (definite if r is not None else possible).setdefault(host_of[pid], {}).setdefault(pid, (q.i, int(born[pid].f[2])))
     for e in evs:
         if e.kind == "R" and e.f[1] == "-1" and e.f[2] == "autorestart":
             pid = int(e.f[0])
-            seen_reg.add(pid)
-            definite.setdefault(host_of[pid], []).append((e.i, int(born[pid].f[2])))
+            definite.setdefault(host_of[pid], {})[pid] = (e.i, int(born[pid].f[2]))     # asking twice is a no-op
     groups = []                          # requests to turn on one host whose [request, return] windows overlap
     for q, r in pairs:
         if q.f[2] == "hoston" and q.f[4] == "0":
@@ -478,8 +503,8 @@ def check(out, report, count):
         if last is None:
             continue                     # an issuer died in the round of its request: unknown whether it was served
         first = reqs[0][0]
-        must = sorted(k for (i, k) in definite.get(h, []) if i < first.i)
-        may = sorted(k for (i, k) in possible.get(h, []) if i < first.i)
+        must = sorted(k for (i, k) in definite.get(h, {}).values() if i < first.i)
+        may = sorted(k for pid, (i, k) in possible.get(h, {}).items() if i < first.i and pid not in definite.get(h, {}))
         got = sorted(int(c.f[2]) for p, c in born.items() if p in restart_born and first.i < c.i < last and host_of[p] == h)
         if must or got:
             count("restart.reboots_with_auto_restart")
@@ -494,11 +519,10 @@ def check(out, report, count):
         for k in may:
             if k in rest:
                 rest.remove(k)
-        if missing or rest:
-            report("C11:restart:%s%s" % ("missing" if missing else "extra", ":concurrent-turn_on" if len(reqs) > 1 else ""),
-                   "host %d turned on at %g by %d request(s) issued in the same scheduling round: scripts %r (+ maybe %r) asked for auto-restart there, scripts %r were re-created"
-                   % (h, first.clk, len(reqs), must, may, got))
-            return feats
+        if missing:
+            count("anomaly.restart.missing")
+        if rest:
+            count("anomaly.restart.extra%s" % (":concurrent-turn_on" if len(reqs) > 1 else ""))
         if got:
             feats["restart"] += 1
     return feats
